@@ -286,6 +286,11 @@ class ExternMixin:
                  'np.random.randint': lambda self, args, kw, node: self.ext_rng(args, kw, node),
                  'datetime.now': lambda self, args, kw, node: self.ext_now(args, kw, node),
                  'np.iinfo': lambda self, args, kw, node: self.ext_iinfo(args, kw, node),
+                 'np.isfinite': lambda self, args, kw, node: SV('opq', self.ufunc('np_isfinite', OPQ, OPQ)(self.as_opq(args[0])), 'ndarray'),
+                 'np.isnan': lambda self, args, kw, node: SV('opq', self.ufunc('np_isnan', OPQ, OPQ)(self.as_opq(args[0])), 'ndarray'),
+                 # np.can_cast(a, b, casting=...): some relation between two dtypes, weaker than equality (uninterpreted per casting rule)
+                 'np.can_cast': lambda self, args, kw, node: VB(self.ufunc('np_can_cast_' + (str(kw['casting'].t) if 'casting' in kw and kw['casting'].k == 'const' else 'safe'),
+                                                                           OPQ, OPQ, BOOL)(self.as_opq(args[0]), self.as_opq(args[1]))),
                  'h5py.File': lambda self, args, kw, node: self.ext_h5_file(args, kw, node),
                  'np.issubdtype': lambda self, args, kw, node: VB(self.ufunc('issubdtype_' + (args[1].t.name.replace('.', '_') if args[1].k == 'const' else 'x'), OPQ, BOOL)(self.as_opq(args[0]))),
                  'np.zeros': lambda self, args, kw, node: self.ext_np_zeros(args, kw, node),
